@@ -196,7 +196,10 @@ def gen_loop(tier, seed):
 
 
 def suites(tier, seed):
-    ss = [
+    # (a stale wake-up for a closed channel's queue must not end the connection - its ids would never
+    #  become available again: the crossing-closes sessions of C20 / C09)
+    c20 = __import__("props.c20", fromlist=["x"])
+    ss = [s_ for s_ in c20.suites(tier, seed) if s_.name == "crossing-channel-closes"] + [
         Suite("open-with-bound-0", "bp", lambda: [Case("b0", ["run 0 1000 0 2 20 100 400 f"], {"keep_prefix": 0}), Case("b1", ["run 1 1000 0 1 20 100 400 f"], {"keep_prefix": 0})], monitor=lambda c, il, sl: (("open_channel never returns with mem_channel_bound = %s" % c.ops[0].split()[1], "c10-open-hang") if any(l.strip() == "open-channel hung" for l in il) else None),
               nontrivial=lambda c, il: True, compare=False, timeout=120,
               rule="end to end with the in-memory queue bound set to 0 (documented as 'treated as 1') and 1: open_channel returns - no sequence of opens hangs"),
